@@ -78,6 +78,18 @@ def decide(cond):
         if CTX.forced is not None:
             d = CTX.forced(cond)
         if d is None:
+            # fast path: the condition may be decided by itself (no hypotheses: cheap even when the accumulated
+            # facts are large)
+            s0 = z3.Solver()
+            s0.set('timeout', 2000)
+            s0.push(); s0.add(z3.Not(cond)); r0 = s0.check(); s0.pop()
+            if r0 == z3.unsat:
+                d = True
+            else:
+                s0.push(); s0.add(cond); r1 = s0.check(); s0.pop()
+                if r1 == z3.unsat:
+                    d = False
+        if d is None:
             s = z3.Solver()
             s.set('timeout', CTX.decide_timeout)
             s.add(*hyps())
